@@ -35,22 +35,22 @@ def protocol(ctx):
 
 def run(ctx):
     protocol(ctx)
-    cases, st = owsim.graphs(ctx, "OwSimData.cfg")
-    ctx.cov["states"] += st["states_distinct"]
-    ctx.cov["transitions"] += st["states_generated"]
-    ctx.notes["tlc"]["OwSimData.cfg"] = st
     binary = owsim.build_owsim(ctx)
-    # (1) B1 on the real binary
-    n = 40 if ctx.quick else 600
-    s = owsim.run_engine(ctx, cases, binary, ["-sample", str(n), "-options", "all", "-workers", "16"])
-    ctx.cov["evaluations"] += s["evaluations"]
-    ctx.cov["distinct_nontrivial"] += s["distinct_nontrivial"]
-    ctx.cov["traces_validated_against_impl"] += s["evaluations"]
-    ctx.notes["b1"] = s["extra"]
-    for smp in s["samples"][:1]:
-        ctx.sample(smp)
-    for m in s["mismatches"]:
-        ctx.report({"kind": m["kind"], "option": m["option"]}, "ow-sim (%s): %s" % (m["option"], m["detail"][:1500]), m)
+    # (1) B1 on the real binary: two families of graphs (wide batches / three generations)
+    for gcfg, n in (("OwSimData.cfg", 32 if ctx.quick else 500), ("OwSimData_3.cfg", 24 if ctx.quick else 400)):
+        cases, st = owsim.graphs(ctx, gcfg)
+        ctx.cov["states"] += st["states_distinct"]
+        ctx.cov["transitions"] += st["states_generated"]
+        ctx.notes["tlc"][gcfg] = st
+        s = owsim.run_engine(ctx, cases, binary, ["-sample", str(n), "-options", "all", "-workers", "16"])
+        ctx.cov["evaluations"] += s["evaluations"]
+        ctx.cov["distinct_nontrivial"] += s["distinct_nontrivial"]
+        ctx.cov["traces_validated_against_impl"] += s["evaluations"]
+        ctx.notes.setdefault("b1", []).append(s["extra"])
+        for smp in s["samples"][:1]:
+            ctx.sample(smp)
+        for m in s["mismatches"]:
+            ctx.report({"kind": m["kind"], "option": m["option"]}, "ow-sim (%s): %s" % (m["option"], m["detail"][:1500]), m)
     # (2) B2: hook traces of perturbed runs
     tdir = os.path.join(ctx.scratch, "owtraces")
     os.makedirs(tdir)
